@@ -6,12 +6,10 @@ SPEC = {
     "theorems": {"Properties.C18": [
         "C18_must_expand_total", "C18_use_sites_total", "C18_unvalidated_pattern_crashes",
         "C18_constant_templates_total_prefix", "C18_prefix_protocol_refuted",
-        "C18_every_dropped_error_is_reviewed", "C18_validated_sites_have_validators",
-        "C18_every_dropped_error_is_validated_partial", "C18_crash_rows_are_exactly_the_open_findings",
-        "C18_every_dropped_error_is_validated_when_no_open_finding", "C18_every_dropped_error_is_validated",
-        "C18_every_dropped_error_is_validated_refuted", "C18_nonvacuous"]},
+        "C18_every_dropped_error_is_validated", "C18_every_dropped_error_is_reviewed",
+        "C18_guard_check_rejects_unguarded_use", "C18_validation_reaches_every_block", "C18_nonvacuous"]},
     "harness_args": lambda tier: ["C18", "--n", 60 if tier == "quick" else 4000],
-    "search_args": lambda tier: ["C18", "--n", 150],
+    "search_args": lambda tier: ["C18", "--n", 100, "--templates", "no"],
     "harness_timeout": 2400,
     "level": "proof",
     "trusted_base": [
